@@ -85,6 +85,13 @@ class C15(InterpProp):
                 j = rnd.randrange(n)
                 ops.append(['bind', i, j])
                 listeners.append([len(listeners), i, 'bind', j, False])
+        mutator = rnd.random() < 0.1
+        if mutator:
+            # a bound callable that writes into the parameters of the event it was given (implementation only)
+            i = rnd.randrange(n)
+            ops.append(['bindmut', i, ncb])
+            listeners.append([len(listeners), i, 'cb', ncb, True])
+            ncb += 1
         for _ in range(rnd.randint(1, 4)):
             add_binding()
         for _ in range(self.n_ops):
@@ -106,14 +113,14 @@ class C15(InterpProp):
                     t += rnd.choice([1, 2])
                 ops.append(['exec', i, t])
         payload = {'kind': 'interp', 'charts': [e.json for e in encs], 'ops': ops, 'record_deliveries': True}
-        return Case(payload, {'charts': charts}, model_ok=all(e.supported for e in encs) and not detacher)
+        return Case(payload, {'charts': charts}, model_ok=all(e.supported for e in encs) and not detacher and not mutator)
 
     def shrink_candidates(self, case):
         p = case.payload
         ops = p['ops']
         n = len(p['charts'])
         for i in range(len(ops) - 1, n - 1, -1):
-            if ops[i][0] in ('bind', 'bindcb', 'detach', 'binddet'):
+            if ops[i][0] in ('bind', 'bindcb', 'detach', 'binddet', 'bindmut'):
                 continue
             q = copy.deepcopy(p)
             del q['ops'][i]
@@ -127,7 +134,7 @@ class C15(InterpProp):
         broken = set()    # interpreters that raised (their queues are no longer predictable)
         detaches = {}     # listener id of a detaching callable -> listener it detaches on its first event
         for k, (op, ob) in enumerate(zip(ops, obs['obs'])):
-            if op[0] in ('bind', 'bindcb', 'binddet'):
+            if op[0] in ('bind', 'bindcb', 'binddet', 'bindmut'):
                 bound[nl] = [op[1], 'bind' if op[0] == 'bind' else 'cb', op[2], True]
                 if op[0] != 'bind':
                     recv.setdefault(op[2], [])
@@ -139,6 +146,16 @@ class C15(InterpProp):
             elif op[0] == 'exec':
                 r = ob['r']
                 i = op[1]
+                if r['outcome'] == 'step':
+                    # nobody writes into what the statechart sent: the parameters are those the code gave
+                    for m in r['step']['steps']:
+                        for e in m['sent']:
+                            if e['internal'] and any(kv[0] == 'hops' for kv in e['event']['data']):
+                                res.violations.append('op %d: the MacroStep lists %s as sent: a bound callable wrote into the '
+                                                      'parameters of the copy it was given, the statechart never sent that' % (k, e['event']))
+                    ev = oracles.step_event(r['step'])
+                    if ev is not None and any(kv[0] == 'hops' for kv in ev['data']):
+                        res.violations.append('op %d: consumed %s: nobody sent or queued an event with that parameter' % (k, ev))
                 if r['outcome'] == 'error':
                     broken.add(i)
                     res.features.add('err:' + r['err']['class'])
